@@ -94,7 +94,14 @@ def cases(draw, tier):
                            "body": draw(st.sampled_from([None, {"json": {"a": 1}}, {"text": "oops"}, {"bytes": "\xff\xfe\x00"}])),
                            "raise": draw(st.booleans()),
                            "variant": draw(st.sampled_from(["sync_detailed", "sync", "asyncio_detailed", "asyncio"]))})
-    return {"ir": ir, "cfg": {"literal_enums": draw(st.booleans())}, "serves": serves}
+    case = {"ir": ir, "cfg": {"literal_enums": draw(st.booleans())}, "serves": serves}
+    if draw(st.integers(0, 2)) == 0:
+        # the same document with a drawn subset of responses (and path parameters) declared under components and used by $ref
+        from . import c20
+
+        case["by_ref"] = {"bits": draw(st.lists(st.integers(0, 7), min_size=6, max_size=16)),
+                          "keys": draw(st.lists(st.sampled_from(c20.KEY_WORDS), min_size=12, max_size=12, unique=True))}
+    return case
 
 
 def strategy(tier):
@@ -175,6 +182,12 @@ def run(case, ctx):
     ir = case["ir"]
     comps = docs.comp_map(ir)
     doc = docs.render(ir)
+    if case.get("by_ref"):
+        from . import c20
+
+        doc, n_moved = c20.by_reference(doc, ir, case["by_ref"]["bits"], case["by_ref"]["keys"])
+        if n_moved:
+            ctx.label("declared_under_components")
     res = sut.generate(doc, cfg=case.get("cfg") or {})
     literal = bool((case.get("cfg") or {}).get("literal_enums"))
     try:
